@@ -12,8 +12,17 @@ package types
 // ---------------------------------------------------------------------------------------------
 // Reward arithmetic (C06)
 
-// reward denominations of a pool's rules are pairwise distinct (established by createPool from a valid Coins value)
-//@ define distinctRewards(s) = forall a:Int :: forall b:Int :: 0 <= a && a < b && b < len(s) ==> s[a].Reward != s[b].Reward
+// Index of a reward denomination in a rule list: ridx(s, d) is the least position whose rule pays d, or 0 if there is
+// none (definitional axioms of that choice function; nothing else is assumed about it).
+//@ define ridx(s, d) = uf("ridx", s, d)
+//@ axiom ridxRange(s, d)
+//@   ensures 0 <= ridx(s, d) && (ridx(s, d) < len(s) || ridx(s, d) == 0)
+//@ axiom ridxHit(s, j)
+//@   ensures 0 <= j && j < len(s) ==> s[ridx(s, s[j].Reward)].Reward == s[j].Reward && ridx(s, s[j].Reward) <= j
+//@ define inRules(s, d) = len(s) > 0 && s[ridx(s, d)].Reward == d
+// reward denominations of a pool's rules are pairwise distinct (established by createPool from a valid Coins value):
+// every rule sits at the index of its own denomination
+//@ define distinctRewards(s) = forall j:Int :: 0 <= j && j < len(s) ==> ridx(s, s[j].Reward) == j
 //@ define rpsOK(s) = forall j:Int :: 0 <= j && j < len(s) ==> !isnil(s[j].RewardPerShare) && raw(s[j].RewardPerShare) >= 0
 // floor(rps * x) for a non-negative accumulator and amount
 //@ define share(r, x) = (raw(r.RewardPerShare) * x) div DEC_ONE
@@ -23,19 +32,20 @@ package types
 //@ func FarmPool.CaclRewards
 //@   property C06
 //@   returns rewards, rewardDebt
+//@   uses ridxRange(pool.Rules, "")
+//@   uses ridxHit(pool.Rules, 0)
 //@   requires distinctRewards(pool.Rules) && rpsOK(pool.Rules)
 //@   requires farmInfo.Locked >= 0 && farmInfo.Locked + deltaAmt >= 0
 //@   requires forall j:Int :: 0 <= j && j < len(pool.Rules) ==> ufb("denom_valid", pool.Rules[j].Reward)
 //@                             && share(pool.Rules[j], farmInfo.Locked) >= amt(farmInfo.RewardDebt, pool.Rules[j].Reward)
 //@   invariant #1 idx: rangeindex >= 0 - 1 && rangeindex < len(pool.Rules)
-//@   invariant #1 seen: forall j:Int :: 0 <= j && j <= rangeindex ==>
-//@                amt(rewards, pool.Rules[j].Reward) == ite(farmInfo.Locked > 0, share(pool.Rules[j], farmInfo.Locked) - amt(farmInfo.RewardDebt, pool.Rules[j].Reward), 0)
-//@                && amt(rewardDebt, pool.Rules[j].Reward) == share(pool.Rules[j], farmInfo.Locked + deltaAmt)
-//@   invariant #1 rest: forall d:Str :: (forall j:Int :: 0 <= j && j <= rangeindex ==> pool.Rules[j].Reward != d) ==> amt(rewards, d) == 0 && amt(rewardDebt, d) == 0
-//@   ensures pending: forall j:Int :: 0 <= j && j < len(pool.Rules) ==>
-//@                amt(rewards, pool.Rules[j].Reward) == ite(farmInfo.Locked > 0, share(pool.Rules[j], farmInfo.Locked) - amt(farmInfo.RewardDebt, pool.Rules[j].Reward), 0)
-//@   ensures debt:    forall j:Int :: 0 <= j && j < len(pool.Rules) ==> amt(rewardDebt, pool.Rules[j].Reward) == share(pool.Rules[j], farmInfo.Locked + deltaAmt)
-//@   ensures nothing_else: forall d:Str :: (forall j:Int :: 0 <= j && j < len(pool.Rules) ==> pool.Rules[j].Reward != d) ==> amt(rewards, d) == 0 && amt(rewardDebt, d) == 0
+//@   invariant #1 seen: forall d:Str :: inRules(pool.Rules, d) && ridx(pool.Rules, d) <= rangeindex ==>
+//@                amt(rewards, d) == ite(farmInfo.Locked > 0, share(pool.Rules[ridx(pool.Rules, d)], farmInfo.Locked) - amt(farmInfo.RewardDebt, d), 0)
+//@                && amt(rewardDebt, d) == share(pool.Rules[ridx(pool.Rules, d)], farmInfo.Locked + deltaAmt)
+//@   invariant #1 rest: forall d:Str :: !(inRules(pool.Rules, d) && ridx(pool.Rules, d) <= rangeindex) ==> amt(rewards, d) == 0 && amt(rewardDebt, d) == 0
+//@   ensures by_denom: forall d:Str :: amt(rewards, d) == ite(inRules(pool.Rules, d) && farmInfo.Locked > 0, share(pool.Rules[ridx(pool.Rules, d)], farmInfo.Locked) - amt(farmInfo.RewardDebt, d), 0)
+//@                && amt(rewardDebt, d) == ite(inRules(pool.Rules, d), share(pool.Rules[ridx(pool.Rules, d)], farmInfo.Locked + deltaAmt), 0)
+//@   ensures nonneg:  forall d:Str :: amt(rewards, d) >= 0 && amt(rewardDebt, d) >= 0
 //@   nopanic
 //@ end
 
